@@ -149,6 +149,31 @@ fn jobs() -> usize {
         .max(1)
 }
 
+/// `*` matches any run of characters; everything else is literal.
+pub fn glob_match(pat: &str, s: &str) -> bool {
+    let parts: Vec<&str> = pat.split('*').collect();
+    if parts.len() == 1 {
+        return pat == s;
+    }
+    let mut pos = 0usize;
+    for (i, p) in parts.iter().enumerate() {
+        if i == 0 {
+            if !s.starts_with(p) {
+                return false;
+            }
+            pos = p.len();
+        } else if i == parts.len() - 1 {
+            return s.len() >= pos + p.len() && s[pos..].ends_with(p);
+        } else {
+            match s[pos..].find(p) {
+                Some(k) => pos += k + p.len(),
+                None => return false,
+            }
+        }
+    }
+    true
+}
+
 pub struct BatchResult {
     pub outcomes: Vec<RunOutcome>,
     pub harness_errors: Vec<String>,
@@ -392,13 +417,18 @@ pub fn check(prop: &str, tier: Tier, seed: u64) -> CheckReport {
 
     let mut exit = 0;
     let mut known_hit = vec![];
+    let mut known_printed: Vec<String> = vec![];
     let mut new_violations = vec![];
     for (sig, (idx, v)) in &viol {
         let listed = known.iter().find(|k| {
-            k.property == spec.id && k.status != "fixed" && &k.signature == sig
+            k.property == spec.id && k.status != "fixed" && glob_match(&k.signature, sig)
         });
         if let Some(k) = listed {
-            println!("KNOWN-FINDING: property={} {} [{}]", spec.id, k.what_fails, sig);
+            if !known_printed.contains(&k.signature) {
+                known_printed.push(k.signature.clone());
+                let short: String = k.what_fails.chars().take(220).collect();
+                println!("KNOWN-FINDING: property={} [{}] {}", spec.id, k.signature, short);
+            }
             known_hit.push(sig.clone());
             continue;
         }
@@ -452,7 +482,7 @@ pub fn check(prop: &str, tier: Tier, seed: u64) -> CheckReport {
         let sig = format!("{}/no_progress", spec.id);
         let listed = known
             .iter()
-            .any(|k| k.property == spec.id && k.status != "fixed" && k.signature == sig);
+            .any(|k| k.property == spec.id && k.status != "fixed" && glob_match(&k.signature, &sig));
         if listed {
             println!("KNOWN-FINDING: property={} run stalls [{sig}]", spec.id);
             continue;
